@@ -63,8 +63,16 @@ func BigSetInt64(z *big.Int, v int64) *big.Int {
 
 func BigNewInt(v int64) *big.Int { return BigSetInt64(new(big.Int), v) }
 
+// zero test as one decision (not one per leading byte)
+func isZeroMag(m []byte) bool {
+	if len(m) == 0 {
+		return true
+	}
+	return vBytesEq(m, make([]byte, len(m)))
+}
+
 func BigSign(z *big.Int) int {
-	if len(stripZeros(bigMag[z])) == 0 {
+	if isZeroMag(bigMag[z]) {
 		return 0
 	}
 	return 1
